@@ -4,10 +4,11 @@ from fractions import Fraction
 from harness.core import Rng, gq, glist, gbool, Dec
 
 PID = "C08"
-VO = ["theories/Reductions/Saddle.vo", "theories/Reductions/Saddle_proofs.vo", "theories/Base/Flat.vo"]
+VO = ["theories/Reductions/Saddle.vo", "theories/Reductions/Saddle_proofs.vo", "theories/Reductions/SaddleFit.vo",
+      "theories/Reductions/SaddleFit_proofs.vo", "theories/Base/Flat.vo"]
 PROPS_FILES = ["props/C08.v"]
 TRANSLATORS = ["t_egconst"]
-REQUIRES = ["From FL Require Import Num Flat Saddle."]
+REQUIRES = ["From FL Require Import Num Flat Saddle SaddleFit."]
 SHARD = 4
 CHUNK = 1
 CASE_TIMEOUT = 300
@@ -72,6 +73,16 @@ def _one_case(r, i):
          "ratio_bound": r.choice([0.5, 0.8, 0.9, 1.0]), "ratio_slack": r.choice([0.0, 0.0, 0.05, 0.125]),
          "eps": r.choice([0.2, 0.1, 0.05]), "max_iter": r.choice([1, 3, 8, 30]),
          "lp": r.chance(1, 2), "eta0": r.choice([0.5, 2.0]), "nu": r.choice([None, 0.01, None, 0.01, 0.0, 1e-6])}
+    # two profiles aimed at the returned-object consistency (applied after the draws above, so the other cases
+    # are the ones generated before these profiles existed):
+    if i % 6 == 4:
+        # EG branch only, no early stop: the recorded gaps are not monotone, so best_iter_ < last_iter_ is common
+        c.update(lp=False, max_iter=r.choice([8, 30, 30]), nu=r.choice([0.0, 1e-6]), eta0=r.choice([2.0, 8.0]),
+                 profile="no-early-stop-EG")
+    elif i % 6 == 5:
+        # large nu: eval_gap never breaks, so hypotheses are also discovered by the mul = 2, 5, 10 queries and
+        # weights_ (EG branch) comes out with an index that is NOT sorted
+        c.update(lp=False, max_iter=8, nu=r.choice([0.3, 2.0]), eta0=8.0, profile="large-nu-EG")
     return c
 
 
@@ -180,6 +191,7 @@ def impl(case):
         "proj_eg": _fl(mom.project_lambda(lam_eg).reindex(idx).values),
         "proj_lp": None if lam_lp is None else _fl(mom.project_lambda(lam_lp).reindex(idx).values),
         "n_lam_cols": int(eg.lambda_vecs_EG_.shape[1]), "log_gaps": log_gaps,
+        "w_index": [int(v) for v in w.index], "lp_cols": [int(v) for v in eg.lambda_vecs_LP_.columns],
     }
 
     # ---- _pmf_predict against the weights_-mixture of predictors_ (training rows + one unseen value)
@@ -195,6 +207,13 @@ def impl(case):
     try:
         eg.weights_ = keep.iloc[::-1]
         out["pmf1_rev"] = _fl(np.asarray(eg._pmf_predict(Xq), dtype=float)[:, 1])
+        # ... and rotated by one / with the two largest entries first (an index that is not sorted either way)
+        rot = list(keep.index[1:]) + list(keep.index[:1])
+        eg.weights_ = keep[rot]
+        out["pmf1_rot"] = _fl(np.asarray(eg._pmf_predict(Xq), dtype=float)[:, 1])
+        big = list(keep.sort_values(ascending=False, kind="stable").index)
+        eg.weights_ = keep[big]
+        out["pmf1_big"] = _fl(np.asarray(eg._pmf_predict(Xq), dtype=float)[:, 1])
     finally:
         eg.weights_ = keep
 
@@ -229,6 +248,32 @@ def _cands(out):
     if out.get("lam_lp") is not None:
         c.append(("lp", out["lam_lp"], out["proj_lp"]))
     return c
+
+
+def _py_true_gaps(out):
+    """max(L - min_h L(h, lam'), L_high - L) for the returned weights_, per recorded multiplier; exact on the
+    implementation's float numbers (independent of the Coq model)"""
+    errs = [Fraction(e) for e in out["errs"]]
+    gams = [[Fraction(x) for x in g_] for g_ in out["gams"]]
+    c = [Fraction(x) for x in out["c"]]
+    B = Fraction(out["B"])
+    q = [Fraction(x) for x in out["q"]]
+    tot = sum(q)
+    if tot <= 0:
+        return {}
+    q = [x / tot for x in q]
+    m = len(c)
+    err = sum(a * b for a, b in zip(q, errs))
+    viol = [sum(q[i] * gams[i][j] for i in range(len(q))) - c[j] for j in range(m)]
+    mv = max(viol) if viol else Fraction(0)
+    L_high = err + B * mv if mv > 0 else err
+    res = {}
+    for nm, _, proj in _cands(out):
+        lam = [Fraction(x) for x in proj]
+        L = err + sum(a * b for a, b in zip(lam, viol))
+        L_low = min(errs[i] + sum(lam[j] * (gams[i][j] - c[j]) for j in range(m)) for i in range(len(errs)))
+        res[nm] = float(max(L - L_low, L_high - L))
+    return res
 
 
 ENC = ("(fun r : report => enc_bool (r_wf r) ++ enc_bool (r_dist r) ++ enc_bool (r_lam_ok r) ++ enc_bool (r_compat r) "
@@ -286,9 +331,12 @@ def compare(case, out, model):
     # (vi) _pmf_predict is the weights_-mixture of the predictors' outputs
     if any(abs(a - b) > 1e-9 for a, b in zip(out["pmf1"], out["mix"])) or \
             any(abs(a - b) > 1e-9 for a, b in zip(out.get("pmf1_rev", out["pmf1"]), out["mix"])) or \
+            any(abs(a - b) > 1e-9 for a, b in zip(out.get("pmf1_rot", out["pmf1"]), out["mix"])) or \
+            any(abs(a - b) > 1e-9 for a, b in zip(out.get("pmf1_big", out["pmf1"]), out["mix"])) or \
             any(abs(a + b - 1.0) > 1e-9 for a, b in zip(out["pmf0"], out["pmf1"])):
-        bad("_pmf_predict", "pmf", "not-the-mixture", f"_pmf_predict[:,1] = {out['pmf1']} (with weights_ listed in reverse "
-            f"order: {out.get('pmf1_rev')}) but the weights_-mixture of predictors_ gives {out['mix']}", "_pmf_predict = [1 - m, m] with m = sum_t weights_[t] * predictors_[t](X)")
+        bad("_pmf_predict", "pmf", "not-the-mixture", f"_pmf_predict[:,1] = {out['pmf1']} (weights_.index = {out.get('w_index')}; with weights_ "
+            f"listed in reverse order: {out.get('pmf1_rev')}, rotated: {out.get('pmf1_rot')}, largest first: "
+            f"{out.get('pmf1_big')}) but the weights_-mixture of predictors_ gives {out['mix']}", "_pmf_predict = [1 - m, m] with m = sum_t weights_[t] * predictors_[t](X)")
     # (iv) early stop only below nu (and not before _MIN_ITER)
     if out["last_iter"] < case["max_iter"] - 1:
         # the threshold that was REQUESTED (the constructor value; the automatic one only when nu=None)
@@ -304,6 +352,18 @@ def compare(case, out, model):
         bad("fit", "last_iter_", "iteration-budget", f"last_iter_ = {out['last_iter']}, best_iter_ = "
             f"{out['best_iter']}, max_iter = {case['max_iter']}", "best_iter_ <= last_iter_ <= max_iter - 1")
 
+    # (vii) returned-object consistency, on the implementation's numbers alone: the true duality gap of the RETURNED
+    # weights_ (as a distribution over the enumerated class) at each multiplier recorded for iteration best_iter_
+    # (mean of the EG multipliers up to best_iter_; the LP multiplier of best_iter_ when the linear program ran),
+    # recomputed here in exact rational arithmetic -- best_gap_ must certify the weights that are handed out,
+    # also when best_iter_ != last_iter_
+    pg = _py_true_gaps(out)
+    if pg and not any(g >= tg - TOL for tg in pg.values()):
+        bad("fit", "weights_", "best_gap_-is-not-the-gap-of-weights_", f"best_gap_ = {g!r} (best_iter_ = "
+            f"{out['best_iter']}, last_iter_ = {out['last_iter']}) but the returned weights_ have duality gap {pg} "
+            f"at the multiplier(s) recorded for iteration best_iter_",
+            "best_gap_ >= duality gap of (weights_, lambda of iteration best_iter_) - 1e-6, for the EG or the LP "
+            "multiplier of that iteration")
     if model is None:
         return v
     cands = model["cands"]
@@ -362,7 +422,11 @@ def tags(case, out, model):
          f"lp:{case['lp']}", f"eps:{case['eps']}", f"nu:{case['nu']}", f"eta0:{case['eta0']}",
          f"hyps:{len(out['errs'])}", f"constraints:{len(out['c'])}",
          f"support:{sum(1 for x in out['q'] if x > 0)}", f"early_stop:{out['last_iter'] < case['max_iter'] - 1}",
-         f"lp_feasible:{out['opt'] is not None}", f"cands:{1 + (out.get('lam_lp') is not None)}"]
+         f"lp_feasible:{out['opt'] is not None}", f"cands:{1 + (out.get('lam_lp') is not None)}",
+         f"best<last:{out['best_iter'] < out['last_iter']}",
+         f"best<last&lp:{out['best_iter'] < out['last_iter']}&{case['lp']}",
+         f"weights_index_sorted:{out.get('w_index') == sorted(out.get('w_index', []))}",
+         f"profile:{case.get('profile', 'base')}"]
     if model is not None:
         t.append(f"compat:{all(r['compat'] for r in model['cands'])}")
         t.append(f"lam_exactly_admissible:{all(r['lam_ok'] for r in model['cands'])}")
